@@ -351,24 +351,6 @@ func (in *Interp) floatConvert(t *Term, from, to types.Type) Value {
 }
 
 // runeToString: string(r). Exact UTF-8 for scalar values given concretely; ASCII for symbolic.
-func (in *Interp) runeToString(r *Term) Value {
-	if r.IsConst() {
-		return litStr(string(rune(r.Int())))
-	}
-	if !in.branch(And(ICmp("<=", IntC(0), r), ICmp("<", r, IntC(128)))) {
-		in.unsupported("string(rune) of symbolic non-ASCII value")
-	}
-	return &StrV{node: zeroArr(8).Store(IX(0), Int2BV(r, 8)), off: IX(0), len: IX(1)}
-}
-func (in *Interp) stringToRunes(s *StrV) Value {
-	in.unsupported("[]rune(string)")
-	return nil
-}
-func (in *Interp) runesToString(s *SliceV) Value {
-	in.unsupported("string([]rune)")
-	return nil
-}
-
 // byteOrderIsLittle decides which ByteOrder value the interface holds.
 func (in *Interp) byteOrderIsLittle(o Value) bool {
 	iv, _ := o.(*IfaceV)
